@@ -6,6 +6,8 @@ CONSTANTS
   Window = 0
   ActiveTxs = {"t1", "t2", "t3", "p1", "p2", "p3"}
   KF_FrozenLedgerHeight = FALSE
+  KF_PlayKeepsStaleReader = FALSE
+  KF_PoolOrderAntiDep = FALSE
   KF_PoolMasksBlockOrder = FALSE
 INVARIANTS TypeOK PureFn Conservation NoDoubleSpend PoolValid SnapshotOK
 VIEW View
